@@ -54,9 +54,23 @@ class C11(Check):
     def extra_batches(self, tier):
         """fixed experiment: aliases of one imported name (set of pairs sorted by name only was hash-seed dependent)"""
         base = {"sched": {"seed": 0, "policy": "fifo", "line_p": 0.0}, "enum_seed": None, "heap_shift": 0, "workers": None, "order_seed": None}
-        return [{"kind": "fixed:import-aliases", "world_spec": {"files": [{"path": "deep/er/and/deeper/views.py", "snippets": [757, 763], "layout": {}}]},
+        exps = [{"kind": "fixed:import-aliases", "world_spec": {"files": [{"path": "deep/er/and/deeper/views.py", "snippets": [757, 763], "layout": {}}]},
                  "include": ["pixee:python/order-imports"],
                  "perturbations": [dict(base, hashseed=h) for h in (0, 1, 2, 3, 5)]}]
+        # several dependency manifests of ONE kind in different directories: which one takes the new requirement must not
+        # follow the order in which the directory happens to be enumerated
+        import random
+
+        names = {m["name"]: m for m in W.manifests()}
+        for k, (mn, cid, dirs) in enumerate([("req-plain", "pixee:python/use-defusedxml", ["a", "b"]), ("req-comments", "pixee:python/url-sandbox", ["", "deploy", "zz/sub"]),
+                                             ("setupcfg-multiline", "pixee:python/harden-pickle-load", ["svc1", "svc2", "lib/x"]),
+                                             ("pyproject-project-deps", "pixee:python/url-sandbox", ["one", "two"])]):
+            r = G.pick_snippet(random.Random(f"c11-stores-{k}"), cid)
+            files = [{"path": "app.py", "snippets": [r["idx"]], "layout": {}}]
+            files += [{"path": (d + "/" if d else "") + names[mn]["file"], "manifest": names[mn]["idx"]} for d in dirs]
+            exps.append({"kind": "fixed:same-kind-manifests", "world_spec": {"files": files}, "include": [cid],
+                         "perturbations": [dict(base, hashseed=0)] + [dict(base, hashseed=0, enum_seed=e, order_seed=e) for e in (1, 2, 3, 5, 8, 13)]})
+        return exps
 
     def gen(self, rng, i, tier):
         if tier == "thorough" and i < len(W.snippets()):
@@ -132,6 +146,10 @@ class C11(Check):
                     files.append(f)
         if len(files) < 1:
             return None
+        if kind == "ff" and rng.random() < 0.35:
+            # several files the codemods fail on: the order in which failures are reported is part of the report
+            for _ in range(rng.randint(2, 6)):
+                files.append({"path": G.rand_path(rng, used), "raw": {"t": rng.choice(["def broken(:\n    pass\n", "x = (\n", "class :\n"])}})
         hs = [0] + [rng.randrange(1, 10_000) for _ in range(3)]
         if tier == "quick":
             hs = [0, 1 + (i % 7), 11 + (i % 5)]  # keeps the number of distinct interpreters small
